@@ -7,10 +7,13 @@ cd "$WT" || exit 2
 DEMO=$(python3 -c "import json;print(json.load(open('_mutant/meta.json'))['demo_cmd'])")
 echo "== demo with change (must fail)"
 bash -c "$DEMO" > _mutant/demo_with.log 2>&1; W=$?
-git stash push -q -- nexosim/src nexosim-util/src 2>/dev/null || git stash push -q -- nexosim/src
+# (no git stash: refs/stash is shared by all worktrees of a repository)
+git diff -- nexosim/src nexosim-util/src > _mutant/current.diff
+git apply -R _mutant/current.diff
 echo "== demo without change (must pass)"
 bash -c "$DEMO" > _mutant/demo_without.log 2>&1; WO=$?
-git stash pop -q
+git apply _mutant/current.diff
+cmp -s _mutant/current.diff _mutant/patch.diff || echo "NOTE: worktree diff differs from patch.diff"
 echo "== suite with change (demo moved aside)"
 mkdir -p _mutant/aside
 for f in nexosim/tests/mutant_demo*.rs; do [ -f "$f" ] && mv "$f" _mutant/aside/; done
